@@ -56,6 +56,7 @@ def gen_wiring(sites):
            "import Gozod.Model.Msg", "namespace Gozod.Gen", "open Gozod.Msg", "", "def sites : List Site := ["]
     rows = []
     for d in sites.values():
+        if ">" in d["wrapper"]: continue   # two-level sites (thorough tier) are predicted from the inner wrapper's entry
         rows.append("  ⟨%s, %s, %s, %s, %s, %s⟩" % (lean_str(d["leaf"]), lean_str(d["wrapper"]), lean_str(d["kind"]),
                                                    srcset(d["appl"]), srcset(d["passes"]), lean_str(d["base"])))
     out.append(",\n".join(rows))
@@ -91,6 +92,8 @@ def key(op, impl, M, S):
         return "locale:%s:%s:empty-message" % (t[2], t[3])
     site = t[2]
     d = SITES.get(site, {})
+    if ">" in site:   # outer>inner: the model's entry is the inner wrapper's
+        d = SITES.get(site.split("@")[0] + "@" + site.split(">")[-1], d)
     if impl in ("panic", "n"):
         return "wire:%s:%s" % (site, {"panic": "panic", "n": "issue-not-reported"}[impl])
     k = "wire:%s:missing-%s" % (d.get("leaf", site), d.get("missing", "?") or "none")
